@@ -320,8 +320,24 @@ PROPS["C05"] = dict(
     level_note="outside the gates the Go scheduler owns the interleaving; a violation needing one specific preemption between adjacent instructions may be missed; a non-linearizable history is always real",
     assumptions=COMMON_ASSUME + ["porcupine v1.3.0", "hooks: simpledb.Verif*, sstables.VerifSetWriterOpenHook (tag verif)"],
     require_labels=["gated-scenario-parked-a-background-writer", "flush-during-history", "compaction-during-history", "real-ticker"],
-    quick=dict(shards=16, checks=12, shrink_s=3, env=dict(VERIF_SHRINK_S=30)),
+    quick=dict(shards=16, checks=30, shrink_s=3, env=dict(VERIF_SHRINK_S=30)),
     thorough=dict(shards=16, checks=600, shrink_s=3, timeout_s=7200),
+)
+
+PROPS["C18"] = dict(
+    pkg="props/c18", level="exploration", engine="E-conc", design_ref="§4 C18", race=True,
+    technique="generated concurrent call programs (rapid) executed under the Go race detector, each call compared with its precomputed sequential answer",
+    rule=("case = (a) the C05 database harness (2..6 clients, rotations, compactions, gates, ticker) with every client owning a private key range plus shared read-only cold keys: each client's results must equal its own "
+          "sequential execution; (b) one table reader (default slice loader or skip-list loader, each data compression) shared by 2..16 goroutines x 5..60 Get/Contains/ScanRange/ScanStartingAt calls at present and absent keys; "
+          "(c) one mmap RecordIO reader shared by 2..16 goroutines x ReadNextAt/SeekNext at generated offsets over files with nil/empty/marker-laden records; GOMAXPROCS in {2,4,16}; the test binary is built with -race "
+          "(GORACE halt_on_error): any race report is a violation, any panic is a violation, every call result is compared with the answer computed from the written data; non-trivial = >=4 goroutines with >=2 calls in flight on "
+          "the same handle at the same time (measured with an in-flight counter), for (a) >=4 clients or overlapping calls or a flush; distinct = distinct case JSON"),
+    level_text="The race detector decides 'data race' for the executed schedule independently of whether the bad interleaving occurred; results are compared with exact sequential answers.",
+    level_note="full Scan() is not issued concurrently (the statement lists Get/Contains/range scans); only the documented default loaders are shared; interleavings are sampled from the Go scheduler",
+    assumptions=COMMON_ASSUME + ["Go race detector (-race)", "hooks as C05"],
+    require_labels=["kind=db", "kind=table", "kind=mmap", "loader=slice", "loader=skiplist"],
+    quick=dict(shards=16, checks=12, shrink_s=3, env=dict(VERIF_SHRINK_S=20)),
+    thorough=dict(shards=16, checks=1500, shrink_s=3, timeout_s=7200),
 )
 
 NOT_APPLICABLE = {}
